@@ -202,7 +202,28 @@ def gen_rust(prop, seed, shard, n_hist, tier):
     rng = random.Random(f"{prop}-{seed}-{shard}")
     out = []
     for i in range(n_hist):
-        out.append(gen_rust_history(f"{shard}.{i}", rng, tier, EXTRAS.get(prop, {})))
+        h = gen_rust_history(f"{shard}.{i}", rng, tier, EXTRAS.get(prop, {}))
+        if prop == "C10" and rng.random() < 0.4:
+            # drain the map through ONE of the checked removers only (every merge / root collapse is then
+            # driven by that call alone), validating as it goes, then refill through try_insert / batch_insert
+            lk = live_keys(h)
+            if 0 < len(lk) <= 400:
+                op = rng.choice(["RI", "TR", "RI"])
+                order = rng.choice(["asc", "desc", "rand"])
+                ks = sorted(lk, reverse=(order == "desc"))
+                if order == "rand":
+                    rng.shuffle(ks)
+                for j, k in enumerate(ks):
+                    h.add(f"{op} {k}")
+                    if j % 3 == 2:
+                        h.add("V")
+                h.add("V")
+                h.add(f"{op} {ks[0]}")
+                for k in ks[:12]:
+                    h.add(f"TI {k} {h.sid} {h.sid * 10}")
+                    h.sid += 1
+                h.add("V")
+        out.append(h)
     return out
 
 
